@@ -171,7 +171,62 @@ def full_genome(W, rng, sset, rows):
     return ncats, best, cells
 
 
+def active_loci(W, best, cells):
+    """loci of the active code of a genome given as {(r, c): gene token}"""
+    seen = []
+    todo = [best]
+    while todo:
+        l = todo.pop()
+        if l in seen or l not in cells:
+            continue
+        seen.append(l)
+        f = cells[l].split(":")
+        s = W.syms[int(f[0])]
+        if f[2] != "-":
+            for a, c in zip(f[2].split(","), s.argcats):
+                todo.append((int(a), c))
+    return seen
+
+
 # --------------------------------------------------------- scenario generators
+def gen_mep_related_load(ck, W):
+    """an individual that has ALREADY reported its signature loads the stream of a
+    closely related one: the same genome entered at another locus (what
+    get_block(l).save() writes), or the same genome with one constant moved by
+    one ulp (equal under gene operator==).  The signature reported afterwards
+    must be the one of the loaded content."""
+    rng = ck.rng
+    sset = 2 if rng.random() < 0.3 else 1
+    rows = rng.randrange(3, 9)
+    ncats, bx, cx = full_genome(W, rng, sset, rows)
+    _, by, cy = full_genome(W, rng, sset, rows)
+    act = active_loci(W, bx, cx)
+    others = [l for l in act if l != bx] or [l for l in sorted(cx) if l != bx]
+    pars = [l for l in act if W.syms[int(cx[l].split(":")[0])].par]
+    pre = rng.choice([["S"], ["S"], ["M", "300", str(rng.randrange(1 << 30)), "S"], ["SY", "A"],
+                      ["R", str(bx[0]), str(bx[1]), rand_gene(W, rng, sset, bx[1], bx[0], rows), "S"]])
+    if pars and rng.random() < 0.35:
+        l = rng.choice(pars)
+        mid = ["LU", str(l[0]), str(l[1])]
+    else:
+        l = rng.choice(others)
+        mid = ["LB", str(l[0]), str(l[1])]
+    post = rng.choice([["S"], ["S"], ["S", "B", str(bx[0]), str(bx[1]), "S"], ["L", "S"]])
+    line = "MEP %d %d | %s | %s | %s" % (ncats, rows, cells_str(bx, cx), cells_str(by, cy), " ".join(pre + mid + post))
+    return {"kind": "MEP", "line": line, "gen": "related-load"}
+
+
+def gen_de_related_load(ck):
+    rng = ck.rng
+    n = rng.randrange(1, 6)
+    zeros = ["0000000000000000", "8000000000000000"]
+    fin = [p for p in DE_POOL if p[:3] not in ("7ff", "fff")]
+    vals = lambda: [rng.choice(zeros) if rng.random() < 0.5 else rng.choice(fin) for _ in range(n)]
+    ops = rng.choice([["S", "LZ", "S"], ["S", "LZ", "S", "LZ", "S"], ["SY", "A", "LZ", "S"], ["S", "L", "S", "LZ", "S"]])
+    return {"kind": "DE", "line": "DE %d | %s | %s | %s" % (n, " ".join(vals()), " ".join(vals()), " ".join(ops)),
+            "gen": "related-load"}
+
+
 def gen_tree_cases(ck, W, ntrees):
     rng = ck.rng
     out = []
@@ -201,14 +256,14 @@ def gen_mep_history(ck, W, known=False):
     _, by, cy = full_genome(W, rng, sset, rows)
     ops = []
     n = rng.randrange(3, 11)
-    choices = ["S", "S", "SY", "R", "B", "D", "M", "M", "X", "X", "L", "LY", "LF", "A"] + (["C"] if ncats == 1 else [])
+    choices = ["S", "S", "SY", "R", "B", "D", "M", "M", "X", "X", "L", "LY", "LF", "LB", "LU", "A"] + (["C"] if ncats == 1 else [])
     for _ in range(n):
         o = rng.choice(choices)
         if o == "R":
             r, c = rng.randrange(rows), rng.randrange(ncats)
             ops += ["R", str(r), str(c), rand_gene(W, rng, sset, c, r, rows)]
-        elif o == "B":
-            ops += ["B", str(rng.randrange(rows)), str(rng.randrange(ncats))]
+        elif o in ("B", "LB", "LU"):
+            ops += [o, str(rng.randrange(rows)), str(rng.randrange(ncats))]
         elif o == "D":
             ops += ["D", str(rng.randrange(rows)), str(rng.randrange(1 << 30))]
         elif o == "M":
@@ -258,7 +313,7 @@ def gen_de_history(ck, known=False):
     vals = lambda pool=DE_POOL: [rng.choice(pool) if rng.random() < 0.7 else "%016x" % (rng.getrandbits(64) & 0xbfefffffffffffff) for _ in range(n)]
     ops = []
     for _ in range(rng.randrange(3, 11)):
-        o = rng.choice(["S", "S", "SY", "W", "W", "V", "V", "X", "L", "LY", "LF", "A"])
+        o = rng.choice(["S", "S", "SY", "W", "W", "V", "V", "X", "L", "LY", "LF", "LZ", "A"])
         if o == "W":
             ops += ["W", str(rng.randrange(n)), vals()[0]]
         elif o == "V":
@@ -421,13 +476,14 @@ def model_line(case, recs):
             elif o == "C":
                 x = parse_content(rec["G"])
                 out += ["C", rec["G"]]; i += 1
-            elif o in ("L", "LY", "LF"):
+            elif o in ("L", "LY", "LF", "LB", "LU"):
+                # every load is the same model step: the parsed content (or a failure)
                 if rec["ret"] == "ok=1":
                     x = parse_content(rec["G"])
                     out += ["L", "1", rec["G"]]
                 else:
                     out += ["L", "0"]
-                i += 1
+                i += 3 if o in ("LB", "LU") else 1
             elif o == "A":
                 x = y
                 out.append("A"); i += 1
@@ -503,7 +559,7 @@ def model_line(case, recs):
                 out += ops[i:i + 2]; i += 2
             elif o == "X":
                 out += ["X", rec["G"]]; i += 2
-            elif o in ("L", "LY", "LF"):
+            elif o in ("L", "LY", "LF", "LZ"):
                 out += ["L", "1", rec["G"]] if rec["ret"] == "ok=1" else ["L", "0"]
                 i += 1
             else:
@@ -620,7 +676,7 @@ def shrink(harness, case, key):
     sec = sections(case["line"])
     ops = sec[3]
     arity = {"S": 1, "SY": 1, "R": 4, "B": 3, "D": 3, "M": 3, "X": 4, "C": 1, "L": 1, "LY": 1, "LF": 1, "A": 1, "I": 4,
-             "W": 3, "V": 2, "SM": 2}
+             "W": 3, "V": 2, "SM": 2, "LB": 3, "LU": 3, "LZ": 1}
     if sec[0][0] in ("GA", "DE", "TEAM"):
         arity.update({"X": 3 if sec[0][0] != "DE" else 2, "I": 3, "M": 3})
     groups = []
@@ -636,8 +692,12 @@ def shrink(harness, case, key):
         hout, _ = run_harness_resilient(harness, [line])
         if not hout[0] or hout[0].startswith(("CRASH", "EXC", "BADLINE")):
             return None
-        c = dict(case, line=line)
-        return c if any(k == key for k, _, _ in oracle(c, parse_records(hout[0]))) else None
+        c = dict(case, line=line, impl=hout[0])
+        hit = [(w, n) for k, w, n in oracle(c, parse_records(hout[0])) if k == key]
+        if not hit:
+            return None
+        c["oracle"], c["record"] = hit[0]
+        return c
     changed = True
     rounds = 0
     while changed and rounds < 6:
@@ -746,6 +806,10 @@ def run(ck):
             cases.append(gen_de_history(ck))
         for _ in range(4000 if T else 300):
             cases.append(gen_team_history(ck, W))
+        for _ in range(3000 if T else 250):
+            cases.append(gen_mep_related_load(ck, W))
+        for _ in range(1000 if T else 80):
+            cases.append(gen_de_related_load(ck))
         for _ in range(10):
             cases.append(gen_mep_history(ck, W, known=True))
             cases.append(gen_ga_history(ck, known=True))
@@ -797,8 +861,10 @@ def run(ck):
             rep = {"line": c["line"], "impl": hout[k], "record": n, "oracle": what}
             if key not in KNOWN_KEYS and not ck.replay_path and not any(v["key"] == key for v in ck.violations):
                 small = shrink(harness, c, key)
-                rep["line"] = small["line"]
-                rep["original_line"] = c["line"]
+                if small is not c:
+                    rep = {"line": small["line"], "impl": small["impl"], "record": small["record"],
+                           "oracle": small["oracle"], "original_line": c["line"]}
+                    what = small["oracle"]
             ck.add_violation(key, what, rep)
         # ---- tree <-> signature
         if "tree" in c and recs and recs[-1]["op"] == "S":
@@ -839,7 +905,7 @@ def run(ck):
     return ck.finish(
         rule="(i) random expression trees over 1- and 2-category symbol sets, each laid out 3 times (row gaps, shared "
              "sub-DAGs, random introns) plus 2 one-symbol / one-constant-bit variants; (ii) random histories of 3-10 public "
-             "operations (signature, replace, get_block, destroy_block, mutation, crossover x4 flavours, cse, load ok/failed, "
-             "assignment; operator[], operator=(vector), DE crossover; team mutation/crossover/load/member signature) on "
+             "operations (signature, replace, get_block, destroy_block, mutation, crossover x4 flavours, cse, load ok/failed "
+             "/ of get_block(l).save() / of a copy with one constant moved by an ulp / of a +-0.0-flipped vector, assignment; operator[], operator=(vector), DE crossover; team mutation/crossover/load/member signature) on "
              "i_mep, i_ga, i_de, team<i_mep>; every record compares raw cache, from-scratch signature and return value; "
              "non-trivial = distinct scenario line")
